@@ -290,8 +290,23 @@ pub fn run(ctx: &Ctx) -> Report {
         ));
     }
     let n_cases = cases.len();
-    let hooks = Hooks { attribute: &|_c, _m, _o, _mm| None, nontrivial: &|_c, m| m.out.len() > 30, fuel: 20_000_000 };
+    // vacuity guard: a program that ends early in the model (an error escaping a probe) would silently skip
+    // everything behind that point
+    let ended_early = std::sync::atomic::AtomicUsize::new(0);
+    let hooks = Hooks {
+        attribute: &|_c, _m, _o, _mm| None,
+        nontrivial: &|_c, m| {
+            if !matches!(m.outcome, crate::meval::Outcome::Ok) {
+                ended_early.fetch_add(1, std::sync::atomic::Ordering::Relaxed);
+            }
+            m.out.len() > 30
+        },
+        fuel: 20_000_000,
+    };
     let stats = mcheck::run(ctx, cases.into_iter(), &hooks);
+    if ended_early.load(std::sync::atomic::Ordering::Relaxed) > 0 {
+        crate::pool::machinery_failure(&format!("C12: {} batch programs end before their last probe in the model", ended_early.load(std::sync::atomic::Ordering::Relaxed)));
+    }
     mcheck::fill_report(
         &mut report,
         &stats,
